@@ -237,6 +237,7 @@ var c12MsgInputs = []string{
 	"SIP/2.0 200 OK\r\nP-Asserted-Identity: \"P\" <sip:p@q>, <tel:+1>\r\nExpires: 60\r\nm: <sip:only@one>\r\nX: 1\r\n\r\n",
 	"REGISTER sip:r SIP/2.0\r\nContact: *\r\nt: <sip:t@t>;tag=tt\r\nf: sip:f@f\r\ni: id\r\n\r\n",
 	"BYE sip:b SIP/2.0\r\nFrom: <sip:a@b>>\r\n\r\n",
+	"NOTIFY sip:n SIP/2.0\r\nContact: <sip:one@h>;expires=9, <sip:two@h>;q=0.5, <sip:th<ree@h>\r\nl: 0\r\n\r\n", // fails in the third value of a list
 	"OPTIONS sip:o SIP/2.0\r\nH1: 1\r\nH2: 2\r\nH3: 3\r\nContact: <sip:1@h>, <sip:2@h>, <sip:3@h>;expires=9\r\nContent-Length: 99999999\r\n\r\n",
 }
 
@@ -315,7 +316,7 @@ func checkC12(r *Run) {
 			{"Reset", func(o *HdrObj, cfg *Cfg) { o.H.Reset(); o.PV.Reset() }},
 			{"Init", func(o *HdrObj, cfg *Cfg) { o.H.Reset(); o.PV.Init(sameVals(o.PV.Contacts.Vals, cfg)) }},
 		}}
-	listIn := strs([]string{"<sip:a@b>;expires=5, \"q,\" <sip:c@d>;q=0.5, sip:e@f\r\nX", "*\r\nX", "<sip:1@h>,<sip:2@h>,<sip:3@h>,<sip:4@h>\r\nX", "\"open <sip:x>\r\nX", "n <sip:g@h>;tag=t;lr\r\nX"})
+	listIn := strs([]string{"<sip:one@h>;expires=9, <sip:two@h>;q=0.5, <sip:b ad@h>, <sip:four@h>\r\nX", "<sip:a@b>;expires=5, \"q,\" <sip:c@d>;q=0.5, sip:e@f\r\nX", "*\r\nX", "<sip:1@h>,<sip:2@h>,<sip:3@h>,<sip:4@h>\r\nX", "\"open <sip:x>\r\nX", "n <sip:g@h>;tag=t;lr\r\nX"})
 	var many []string
 	for i := 0; i < 36; i++ {
 		many = append(many, fmt.Sprintf("<sip:%d@h>;expires=%d", i, i+1))
@@ -390,7 +391,46 @@ func checkC12(r *Run) {
 	historyBFS(r, hdrSp)
 	historyBFS(r, hdrsSp)
 	historyBFS(r, msgSp)
+	c12InitNil(r)
 	c12URI(r)
+}
+
+// c12InitNil: an object that worked on caller-supplied arrays is initialised without arrays (Init(buf, nil, nil)): from
+// then on it behaves like a new object initialised the same way - built-in arrays, none of the caller's.
+func c12InitNil(r *Run) {
+	msgDrv.init()
+	st := newStats()
+	for ai, a := range c12MsgInputs {
+		for _, b := range c12MsgInputs {
+			for _, caps := range [][2]int{{0, 0}, {1, 1}, {2, 1}, {3, 0}, {12, 12}, {-1, 2}, {2, -1}} {
+				for _, cut := range []int{len(a), len(a) / 2, 13} {
+					used := new(sipsp.PSIPMsg)
+					ch, cv := mkHdrs(caps[0]), mkVals(caps[1])
+					used.Init(nil, ch, cv)
+					sipsp.ParseSIPMsg([]byte(a)[:cut], 0, used, 0)
+					used.Init(nil, nil, nil)
+					fresh := new(sipsp.PSIPMsg)
+					fresh.Init(nil, nil, nil)
+					un, ue := sipsp.ParseSIPMsg([]byte(b), 0, used, 0)
+					fn, fe := sipsp.ParseSIPMsg([]byte(b), 0, fresh, 0)
+					st.Transitions += 3
+					st.Evals++
+					st.States++
+					uo, fo := msgDrv.obs(used, []byte(b)), msgDrv.obs(fresh, []byte(b))
+					if un != fn || ue != fe || uo != fo {
+						cs := mkCase("C12initnil", "ParseSIPMsg.Init(nil arrays)", &Cfg{HdrCap: caps[0], ValCap: caps[1]}, []byte(b), nil)
+						cs.Extra = map[string]any{"first": ai, "cut": cut}
+						det := fmt.Sprintf("(%d,%v) new object (%d,%v)", un, ue, fn, fe)
+						if un == fn && ue == fe {
+							det = firstDiff(fo, uo)
+						}
+						r.Col.add(&Violation{Property: "C12", Site: "ParseSIPMsg.Init", Rule: "behaves-like-new-after-reset", Class: "init-without-arrays-after-caller-arrays", Detail: det, Case: cs})
+					}
+				}
+			}
+		}
+	}
+	r.St.merge(st)
 }
 
 // PsipURI.Reset: parse A, Reset, parse B == new object parsing B (ParseURI fills a caller-supplied structure).
@@ -424,6 +464,22 @@ func init() {
 		}
 		sp, _ := c.Extra["space"].(string)
 		return c12Replay[c.Driver+"/"+sp](c)
+	}
+	replayers["C12initnil"] = func(prop string, c *Case) []*Violation {
+		msgDrv.init()
+		a, b := []byte(c12MsgInputs[exInt(c.Extra, "first")]), c.input()
+		used := new(sipsp.PSIPMsg)
+		used.Init(nil, mkHdrs(c.Cfg.HdrCap), mkVals(c.Cfg.ValCap))
+		sipsp.ParseSIPMsg(a[:exInt(c.Extra, "cut")], 0, used, 0)
+		used.Init(nil, nil, nil)
+		fresh := new(sipsp.PSIPMsg)
+		fresh.Init(nil, nil, nil)
+		un, ue := sipsp.ParseSIPMsg(b, 0, used, 0)
+		fn, fe := sipsp.ParseSIPMsg(b, 0, fresh, 0)
+		if un != fn || ue != fe || msgDrv.obs(used, b) != msgDrv.obs(fresh, b) {
+			return []*Violation{{Property: prop, Site: "ParseSIPMsg.Init", Rule: "behaves-like-new-after-reset", Class: "init-without-arrays-after-caller-arrays", Case: c}}
+		}
+		return nil
 	}
 	replayers["C12uri"] = func(prop string, c *Case) []*Violation {
 		b, _ := c.Extra["then"].(string)
